@@ -879,8 +879,20 @@ def st_soc(tier):
             if std == "axi-lite":
                 o["bp"] = draw(st.sampled_from([0, 0, 1, 3]))
             ops.append(o)
-        return {"std": std, "T": T, "ops": ops}
+        # the counter's start value: 0, or close to its maximum (the state after 2**32-k earlier errors) to meet the saturation
+        start = draw(st.sampled_from([0, 0, 0, 0xffffffff, 0xfffffffe, 0xfffffffd, 0xfffffffb]))
+        return {"std": std, "T": T, "ops": ops, "start": start}
     return case()
+
+
+def _preload_error_counter(ctrl, value):
+    """the register behind the published bus_errors status: found as the source of the status assignment, started at `value`"""
+    from migen.fhdl.structure import _Assign, Signal, Constant
+    for st_ in ctrl._fragment.comb:          # the module's own statements (get_fragment() may be called only once, by the simulator)
+        if isinstance(st_, _Assign) and st_.l is ctrl._bus_errors.status and isinstance(st_.r, Signal):
+            st_.r.reset = Constant(value, (len(st_.r), False))
+            return True
+    return False
 
 
 def run_soc(case):
@@ -894,6 +906,10 @@ def run_soc(case):
     tb = wishbone.Interface(data_width=32, adr_width=30, addressing="word") if std == "wishbone" else axi.AXILiteInterface(data_width=32, address_width=32)
     soc.bus.add_master("tb", tb)
     soc.finalize()
+    start = case.get("start", 0)
+    if start and not _preload_error_counter(soc.ctrl, start):
+        start = 0
+    sat = lambda v: min(start + v, ONES)
     ic = soc.bus._interconnect
     cls = ["std:" + std, "T=%d" % T]
     ctx = "SoCCore(bus_standard=%r, bus_timeout=%d)" % (std, T)
@@ -944,15 +960,17 @@ def run_soc(case):
         (_, sb, ab, db, _), (_, ss, as_, ds, _) = ma.results[-2:]
         f_be = ab - sb == T and db == ONES
         f_sc = as_ - ss == T and ds == ONES
-        exp_final = forced + int(f_be) + int(f_sc)
+        exp_final = sat(forced + int(f_be) + int(f_sc))
+        if start:
+            cls.append("counter-near-maximum" + (":saturated" if start + forced + int(f_be) + int(f_sc) >= ONES else ""))
         if final != exp_final:
-            return bad("error-count", "%s: %d forced terminations, bus_errors=%d (%d error pulses)" % (ctx, exp_final, final, pulses), key="c11:soc-counter",
-                       cls=cls, cycles=cyc)
+            return bad("error-count", "%s: counter started at %#x, %d forced terminations, bus_errors=%#x (%d error pulses), expected %#x (saturating)" %
+                       (ctx, start, forced + int(f_be) + int(f_sc), final, pulses, exp_final), key="c11:soc-counter", cls=cls, cycles=cyc)
         if not f_be and not f_sc:
             if ds != scratch:
                 return skip("unexpected CSR layout")
-            if db != forced:
-                return bad("error-count", "%s: bus_errors read through the bus = %d, %d forced terminations" % (ctx, db, forced), key="c11:soc-counter",
+            if db != sat(forced):
+                return bad("error-count", "%s: bus_errors read through the bus = %#x, started at %#x, %d forced terminations" % (ctx, db, start, forced), key="c11:soc-counter",
                            cls=cls, cycles=cyc)
             cls.append("counter-read-through-bus")
         return ok(nt=forced >= 2, cls=cls + ["forced>=2"] * (forced >= 2), cycles=cyc, counts={"forced": forced})
@@ -969,6 +987,12 @@ def run_soc(case):
                 return bad("error-indication", "%s: access to unmapped %#x answered %r" % (ctx, addr(o), L["resp"]), key="c11:soc-indication", cls=cls, cycles=cyc)
     final = pr.trace[-1][0]
     pulses = sum(v[1] for v in pr.trace[1:])
+    if start:
+        cls.append("counter-near-maximum" + (":saturated" if start + slverr >= ONES else ""))
+        if final != sat(slverr) and final != sat(pulses):
+            return bad("error-count", "%s: counter started at %#x, %d SLVERR terminations (%d error pulses), bus_errors=%#x, expected %#x (saturating)" %
+                       (ctx, start, slverr, pulses, final, sat(slverr)), key="c11:soc-counter", cls=cls, cycles=cyc)
+        return ok(nt=slverr >= 2, cls=cls + ["forced>=2"] * (slverr >= 2), cycles=cyc, counts={"forced": slverr})
     if final != slverr:
         if final == pulses and pulses < slverr:
             return bad("error-count", "%s: %d accesses were terminated with SLVERR by the timeout but bus_errors=%d: a read and a write timeout that expire in "
